@@ -61,7 +61,7 @@ Arrived  == HasActor /\ SidOf(cur, Actor) # 0
 (* Client views (Appendix D)                                               *)
 (***************************************************************************)
 NoView == [joined |-> FALSE, sid |-> 0, pid |-> 0, parts |-> {}, ents |-> <<>>,
-           comps |-> <<>>, unsynced |-> {}, acts |-> <<>>, assets |-> <<>>, bad |-> <<>>]
+           comps |-> <<>>, unsynced |-> {}, mysubs |-> {}, acts |-> <<>>, assets |-> <<>>, bad |-> <<>>]
 
 EntOfRow(r) == [owner |-> r[2], flag |-> r[3], px |-> r[4]]
 Bad(v, m)   == [v EXCEPT !.bad = Append(@, m)]
@@ -121,6 +121,9 @@ ApplyMsg(v, m, req) ==
          [v EXCEPT !.comps = [k \in ({x \in DOMAIN @ : x[1] # req.tid} \cup {<<r[1], r[2]>> : r \in m.comps}) |->
                                 IF k[1] = req.tid THEN (CHOOSE r \in m.comps : <<r[1], r[2]>> = k)[3] ELSE @[k]],
                    !.unsynced = @ \ {req.tid}]
+    \* what the client believes it is subscribed to: its own accepted subscribe / unsubscribe requests
+    [] m.t = "SUB_RESPONSE"   -> [v EXCEPT !.mysubs = @ \cup {req.tid}]
+    [] m.t = "UNSUB_RESPONSE" -> [v EXCEPT !.mysubs = @ \ {req.tid}]
     [] m.t = "ACTION_BROADCAST" ->
          IF m.act[1] \notin DOMAIN v.ents THEN Bad(v, m)
          ELSE [v EXCEPT !.acts = Put(@, <<m.act[1], m.act[2]>>, [ts |-> m.act[3], data |-> m.act[4]])]
@@ -214,12 +217,14 @@ NextGhost(g, e, st0, st1, v0s, v1s) ==
                              \/ ms[i].ots = 0
                              \/ /\ (ms[i].eid \in DOMAIN old /\ st0.conns[c].sid = st1.conns[c].sid) => ms[i].ots > old[ms[i].eid]
                                 /\ \A j \in DOMAIN ms : (j < i /\ ms[j].eid = ms[i].eid) => ms[j].ots < ms[i].ots,
-       \* a type the client is subscribed to before and after never becomes unsynced
+       \* a type the client is subscribed to before and after - by the server's books or by its own (the requests
+       \* it was answered) - never becomes unsynced
        synced |-> \A c \in Conns :
                      LET s == st1.conns[c].sid  p == st1.conns[c].pid IN
                      (s # 0 /\ s = st0.conns[c].sid /\ p = st0.conns[c].pid /\ s \in DOMAIN st0.sess /\ s \in DOMAIN st1.sess) =>
                         \A t \in v1s[c].unsynced \ v0s[c].unsynced :
-                           ~(p \in SubsOf(st0.sess[s], t) /\ p \in SubsOf(st1.sess[s], t)) ]
+                           /\ ~(p \in SubsOf(st0.sess[s], t) /\ p \in SubsOf(st1.sess[s], t))
+                           /\ ~(t \in v0s[c].mysubs /\ t \in v1s[c].mysubs) ]
 
 (***************************************************************************)
 (* C01  every participant's replicated view converges to the server state  *)
